@@ -36,8 +36,8 @@ GRIDS = {'real_M5': ([5, 6, 16, 8], 'real'), 'fast_M4_padded': ([4, 5, 13, 7], [
 def bounds(tier):
   return dict(classes=['PrimitiveEquations', 'PrimitiveEquationsWithTime', 'MoistPrimitiveEquations', 'ShallowWater'],
               grids=list(GRIDS), level_sets=list(LEVELS), dts=[0.005, 0.02],
-              action_alphabet='PE: sil3+[exp], rk3+[diffusion], rk2+[], euler+[exp,diffusion]%s; SW: leapfrog + every ordered subset of <= 2 of {exp, Robert-Asselin}' %
-              ('' if tier == 'quick' else ', rk4+[diffusion,exp], sil3+[]'),
+              action_alphabet='PE: sil3+[exp], rk3+[diffusion], rk2+[exp(order 2, cutoff .5)], euler+[exp,diffusion]%s; SW: leapfrog + every ordered subset of <= 2 of {exp, Robert-Asselin} + [exp(order 2, cutoff .5), RA]; orography with content at the top total wavenumber' %
+              ('' if tier == 'quick' else ', rk4+[diffusion,exp], sil3+[], rk2+[]'),
               bfs_depth=4 if tier == 'quick' else 5, chain_length=6 if tier == 'quick' else 24)
 
 
@@ -131,6 +131,9 @@ def work(unit, rec):
       q = np.zeros((B, K, 2 * M - 1, L)); q[:, :, 0, 0] = 0.01 * harness.SQRT4PI; q[:, 1, 1, 1] = 2e-3
       tracers['specific_humidity'] = q
     orog = np.zeros((2 * M - 1, L)); orog[0, 1] = 2e-4; orog[1, 1] = 1.4e-4; orog[2, 2] = -0.6e-4
+    # a modal orography need not be truncated (filtered_modal_orography / a plain to_modal keep the top total wavenumber):
+    # the tendency it forces must still be clipped
+    orog[0, L - 1] = 1.0e-4; orog[1, L - 1] = -0.7e-4; orog[2 * M - 2, L - 1] = 0.4e-4
     eq = harness.make_pe(cls, coords, tref, orog, specs, impl=impl)
     t0 = 0.25
     root = harness.pe_state(cls, coords, impl, vor, div, tmp, lps, tracers=tracers, sim_time=np.full(B, t0) if cls != 'PrimitiveEquations' else 0.0)
@@ -145,9 +148,10 @@ def work(unit, rec):
   # ---- action alphabet -------------------------------------------------------------------------------
   if is_sw:
     expf = ti.exponential_leapfrog_step_filter(g, dt)
+    expc = ti.exponential_leapfrog_step_filter(g, dt, tau=0.02, order=2, cutoff=0.5)      # non-default cutoff and order
     ra = ti.robert_asselin_leapfrog_filter(0.05)
     lf = ti.semi_implicit_leapfrog(eq, dt)
-    stacks = {'none': [], 'exp': [expf], 'ra': [ra], 'exp,ra': [expf, ra], 'ra,exp': [ra, expf]}
+    stacks = {'none': [], 'exp': [expf], 'ra': [ra], 'exp,ra': [expf, ra], 'exp(cutoff=.5),ra': [expc, ra], 'ra,exp': [ra, expf]}
     if not unit['full']:
       stacks.pop('ra,exp')
     actions = {('leapfrog', k): jax.jit(jax.vmap(ti.step_with_filters(lf, v))) for k, v in stacks.items()}
@@ -157,11 +161,12 @@ def work(unit, rec):
     nsteps0 = 1
   else:
     expf = ti.exponential_step_filter(g, dt)
+    expc = ti.exponential_step_filter(g, dt, tau=0.02, order=2, cutoff=0.5)              # non-default cutoff and order
     dif = ti.horizontal_diffusion_step_filter(g, dt, tau=0.05, order=2)
     spec = [('sil3', ti.imex_rk_sil3, 'exp', [expf]), ('rk3', ti.crank_nicolson_rk3, 'diffusion', [dif]),
-            ('rk2', ti.crank_nicolson_rk2, 'none', []), ('euler', ti.backward_forward_euler, 'exp,diffusion', [expf, dif])]
+            ('rk2', ti.crank_nicolson_rk2, 'exp(cutoff=.5)', [expc]), ('euler', ti.backward_forward_euler, 'exp,diffusion', [expf, dif])]
     if unit['full']:
-      spec += [('rk4', ti.crank_nicolson_rk4, 'diffusion,exp', [dif, expf]), ('sil3', ti.imex_rk_sil3, 'none', [])]
+      spec += [('rk4', ti.crank_nicolson_rk4, 'diffusion,exp', [dif, expf]), ('sil3', ti.imex_rk_sil3, 'none', []), ('rk2', ti.crank_nicolson_rk2, 'none', [])]
     actions = {(a, fn_): jax.jit(jax.vmap(ti.step_with_filters(integ(eq, dt), fl))) for a, integ, fn_, fl in spec}
     start = root
     newest = lambda s: s
@@ -223,7 +228,7 @@ def work(unit, rec):
   if not is_sw and hasattr(root, 'sim_time'):
     key = ('clock_untouched', ctag)
     rec.case(key, transitions=4, outcome=None)
-    for fname, f in (('exponential', expf), ('diffusion', dif)):
+    for fname, f in (('exponential', expf), ('exponential(cutoff=.5)', expc), ('diffusion', dif)):
       out = jax.vmap(lambda s: f(s, s))(root)
       rec.exact(np.asarray(out.sim_time), np.asarray(root.sim_time), site='filters_leave_sim_time_bit_identical', key=key, sig={'filter': fname})
     for eta in (dt, -0.3):
